@@ -104,6 +104,62 @@ Theorem C14_session_judge_sound : forall mid obs sess,
 Proof. exact sess_ok_sound_full. Qed.
 Print Assumptions C14_session_judge_sound.
 
+(* ---- executed-status lookups that fail ----
+   [fl]: per position how often the IsProposalExecuted query of that proposal fails (0 = never).
+   The code returns the error of the first failing lookup: one failing lookup (of a pending OR an
+   executed proposal) and there are no batches at all, nothing is hashed or signed ... *)
+Theorem C14_lookup_err_iff : forall ps fl,
+  lookup_err ps fl = true <->
+  exists i p k, nth_error ps i = Some p /\ nth_error fl i = Some k /\ 0 < k.
+Proof. exact lookup_err_iff. Qed.
+Print Assumptions C14_lookup_err_iff.
+
+Theorem C14_lookup_error_no_batches : forall cap tg ps fl,
+  lookup_err ps fl = true -> batches_r cap tg ps fl = None /\ hashed_model cap tg ps fl = [].
+Proof. exact lookup_error_nothing. Qed.
+Print Assumptions C14_lookup_error_no_batches.
+
+(* ... and without a failing lookup the batches are the ones of the theorems above; so whatever the
+   step returns is a partition of ALL pending proposals: none is left out silently. *)
+Theorem C14_no_lookup_error_batches : forall cap tg ps fl,
+  lookup_err ps fl = false -> batches_r cap tg ps fl = Some (batches cap tg ps).
+Proof. exact no_lookup_error_batches. Qed.
+Print Assumptions C14_no_lookup_error_batches.
+
+Theorem C14_returned_batches_partition : forall cap tg ps fl bs,
+  batches_r cap tg ps fl = Some bs -> List.concat (map members bs) = pending ps.
+Proof. exact batches_r_partition. Qed.
+Print Assumptions C14_returned_batches_partition.
+
+(* the judges used on the implementation for these cases: accept the model, and accept only "failure
+   reported, nothing produced" (when a lookup did fail) or a partition of all pending proposals *)
+Theorem C14_lookup_judge_accepts_model : forall cap tg ps fl,
+  spec_ok_r cap tg ps fl (option_map (map obs_of) (batches_r cap tg ps fl)) = true.
+Proof. exact spec_ok_r_model. Qed.
+Print Assumptions C14_lookup_judge_accepts_model.
+
+Theorem C14_lookup_judge_sound : forall cap tg ps fl r,
+  spec_ok_r cap tg ps fl r = true ->
+  (r = None /\ lookup_err ps fl = true) \/
+  exists obs bs, r = Some obs /\ obs = map obs_of bs /\ List.concat (map members bs) = pending ps /\
+                 (no_overflow tg ps = true -> Forall (okspec cap tg) bs).
+Proof. exact spec_ok_r_sound. Qed.
+Print Assumptions C14_lookup_judge_sound.
+
+Theorem C14_hashed_judge_accepts_model : forall cap tg ps fl err,
+  (lookup_err ps fl = true -> err = true) ->
+  hashed_ok_r ps fl err (hashed_model cap tg ps fl) = true.
+Proof. exact hashed_ok_r_model. Qed.
+Print Assumptions C14_hashed_judge_accepts_model.
+
+Theorem C14_hashed_judge_sound : forall ps fl err hs,
+  hashed_ok_r ps fl err hs = true ->
+  (hs = [] /\ ((err = true /\ lookup_err ps fl = true) \/ pending ps = [])) \/
+  (Forall (fun m => m <> []) hs /\
+   exists segs, hs = map (map pid) segs /\ List.concat segs = pending ps).
+Proof. exact hashed_ok_r_sound. Qed.
+Print Assumptions C14_hashed_judge_sound.
+
 (* ---- the code as it was (before fix-C14) ---- *)
 
 (* gas mis-attributed at roll-over: without any overflow a non-empty batch is submitted with gas
@@ -136,5 +192,10 @@ Example C14_nonvacuous :
   no_overflow 100 w_ps3 = true /\
   map obs_of (batches 250 100 w_ps3) = [([0; 1], 200); ([2], 100)] /\
   map snd (sessions "m" (batches 250 100 w_ps3)) = ["m-0"; "m-1"]%string /\
-  map obs_of (batches 90 100 w_ps3) = [([], 0); ([0], 100); ([1], 100); ([2], 100)].
+  map obs_of (batches 90 100 w_ps3) = [([], 0); ([0], 100); ([1], 100); ([2], 100)] /\
+  (* a failing lookup at position 1: no batches; the judge rejects "skip it and batch the rest" *)
+  lookup_err w_ps3 [0; 1; 0] = true /\ batches_r 250 100 w_ps3 [0; 1; 0] = None /\
+  lookup_err w_ps3 [0; 0; 0] = false /\
+  spec_ok_r 250 100 w_ps3 [0; 1; 0] (Some [([0; 2], 200)]) = false /\
+  hashed_ok_r w_ps3 [0; 1; 0] true [[0; 2]] = false.
 Proof. vm_compute. repeat split. Qed.
